@@ -225,9 +225,18 @@ pub fn main(args: &util::Args) {
         for f in files {
             let Ok(src) = std::fs::read_to_string(&f) else { continue };
             let id = format!("corpus:{}/{}", sub, f.file_name().unwrap().to_string_lossy());
+            // `<name>.gom.out`: the output the SOURCE denotes, written down by hand with the witness
+            let expected = std::fs::read_to_string(format!("{}.out", f.display())).ok();
             match util::compile_text(&dir, &src) {
                 Outcome::Ok(c) => {
-                    writeln!(out, "{}\tEXPECT\tnone\t", id).unwrap();
+                    writeln!(
+                        out,
+                        "{}\tEXPECT\t{}\t{}",
+                        id,
+                        if expected.is_some() { "out" } else { "none" },
+                        crate::sexp::esc_line(expected.as_deref().unwrap_or(""))
+                    )
+                    .unwrap();
                     writeln!(out, "{}\tSRC\t{}", id, crate::sexp::esc_line(&src)).unwrap();
                     dump_src(&id, &dir.join("main.gom"), &src, &mut out);
                     dump_case(&id, &c, &mut out);
@@ -255,6 +264,7 @@ pub fn main(args: &util::Args) {
             wildcard_arrays: i % 10 == 8,
             src_forms: i % 4 != 1,
             lit_field_effects: i % 20 == 7,
+            nested_patterns: i % 4 == 1,
         };
         let (src, feats) = crate::progen::gen_program(&mut rng, cfg);
         let id = format!(
